@@ -19,7 +19,7 @@ VERIF = os.path.dirname(os.path.dirname(os.path.abspath(__file__)))
 EXTRACT = os.path.join(VERIF, 'tsa', 'extract', 'tsa-extract')
 CACHE = os.path.join(VERIF, '.cache')
 RESOURCE_DIR = '/usr/lib/llvm-14/lib/clang/14.0.6'
-EXTRACTOR_VERSION = '3'
+EXTRACTOR_VERSION = '4'
 
 
 class AnalysisBroken(Exception):
@@ -173,10 +173,41 @@ def build(repo, verbose=True):
             for v in d['vars']:
                 key = v['qname'] + ('@' + v.get('func', '') if v.get('staticlocal') else '')
                 merged['vars'].setdefault(key, v)
+        _uniquify_locals(merged['functions'])
         merged['extract_wall_s'] = round(time.time() - t0, 2)
         return merged
     finally:
         shutil.rmtree(scratch, ignore_errors=True)
+
+
+def _uniquify_locals(functions):
+    """locals of one function (and of the lambdas nested in it) that share a name get distinct names
+       `name@<decl line*1000+col>` so that name-keyed environments cannot confuse them"""
+    from .astq import walk
+    groups = {}
+    for fid, f in functions.items():
+        root = fid.split('::<lambda@', 1)[0]
+        groups.setdefault(root, []).append(f)
+    for root, fs in groups.items():
+        decls = {}
+        for f in fs:
+            for n in walk(f.get('body')):
+                if n.get('k') == 'var' and n.get('name') and 'dl' in n:
+                    decls.setdefault(n['name'], set()).add(n['dl'])
+        dup = {name for name, ds in decls.items() if len(ds) > 1}
+        if not dup:
+            continue
+        for f in fs:
+            for n in walk(f.get('body')):
+                k = n.get('k')
+                if k == 'var' and n.get('name') in dup and 'dl' in n:
+                    n['name'] = '%s@%d' % (n['name'], n['dl'])
+                elif k == 'ref' and n.get('name') in dup and 'dl' in n and n.get('dk') in ('local', 'staticlocal'):
+                    n['name'] = '%s@%d' % (n['name'], n['dl'])
+                elif k == 'lambda':
+                    for c in n.get('caps', []):
+                        if c.get('name') in dup and 'dl' in c:
+                            c['name'] = '%s@%d' % (c['name'], c['dl'])
 
 
 def load(verbose=False):
